@@ -330,12 +330,17 @@ def run_shard(spec):
         c = run_units_case(acc, U, {"mode": "units", "kind": "triples", "cseed": 0, "plan": []})
         acc.extra["exhaustive"] = True
         acc.extra["exhaustive_space"] = "64 ordered triples of the four defined units x 20 values"
+        recent = []
         for i in range(spec["n"]):
             case = {"mode": "units", "kind": "chains", "cseed": rng.randrange(1 << 30)}
             nv = len(acc.violations)
             case = run_units_case(acc, U, case)
             for v in acc.violations[nv:]:
-                v["case"] = case
+                # the batches of user-defined units that were created, used and released just before belong to the
+                # history of this one (state kept per unit object outlives the object)
+                v["case"] = dict(case, history=list(recent))
+            recent.append({"cseed": case["cseed"], "plan": case["plan"]})
+            del recent[:-6]
             if i == 0:
                 acc.samples.append({"mode": "units", "user_chain_plan": case["plan"]})
     else:
@@ -352,6 +357,8 @@ def replay(pid, case):
     acc = Acc()
     if case["mode"] == "units":
         from robotpy_ext.common_drivers import units as U
+        for h in case.get("history", ()):
+            run_units_case(Acc(), U, {"mode": "units", "kind": "chains", "cseed": h["cseed"], "plan": h["plan"]})
         run_units_case(acc, U, case)
     else:
         run_sensor_case(acc, case)
